@@ -6,6 +6,7 @@ package main
 
 import (
 	"bytes"
+	"crypto/sha1"
 	"fmt"
 	"sort"
 	"strings"
@@ -366,7 +367,9 @@ func (s *sys) Canon(i any) string {
 	d := table.VerifDumpPitCs(in.cs, now)
 	fmt.Fprintf(&b, "#n=%d dead=%v lru=%v loc=%d map=%d cnt=%d", d.Nodes, d.DeadNodes, d.LruOrder, d.LruLocations, d.CsMapSize, d.NCs)
 	for _, c := range d.Cs {
-		fmt.Fprintf(&b, "|%s:%v:%v", c.Name, rel(c.StaleIn), c.InMap)
+		// the stored bytes are part of the state: two histories that end in the same reference
+		// contents may still hold different private buffers (e.g. a reused, longer buffer)
+		fmt.Fprintf(&b, "|%s:%v:%v:%d:%x", c.Name, rel(c.StaleIn), c.InMap, len(c.Wire), sha1.Sum(c.Wire))
 	}
 	return b.String()
 }
@@ -389,7 +392,7 @@ func main() {
 		ID: "C07", PanicClause: "C07.panic", Build: build,
 		Configs: func(th bool) []explore.Config {
 			var c []explore.Config
-			d1, d2 := 8, 5
+			d1, d2 := 10, 4
 			if th {
 				d1, d2 = 12, 6
 			}
